@@ -33,6 +33,7 @@ from esp_kconfiglib.core import TYPE_TO_STR
 from esp_kconfiglib.core import Choice
 from esp_kconfiglib.core import MenuNode
 from esp_kconfiglib.core import Symbol
+from esp_kconfiglib.core import _is_base_n
 from esp_kconfiglib.core import expr_str
 from esp_kconfiglib.core import expr_value
 from esp_kconfiglib.core import is_float
@@ -225,8 +226,9 @@ def check_valid(sym: Symbol, s: str) -> Tuple[bool, Optional[str]]:
 
         for low_sym, high_sym, cond in sym.ranges:
             if expr_value(cond):
-                low_s = low_sym.str_value
-                high_s = high_sym.str_value
+                # A bound given by an option without a value (e.g. disabled) counts as 0, as in Symbol.str_value
+                low_s = low_sym.str_value if is_float(low_sym.str_value) else "0.0"
+                high_s = high_sym.str_value if is_float(high_sym.str_value) else "0.0"
                 if not float(low_s) <= val <= float(high_s):
                     return False, f"{s} is outside the range {low_s} to {high_s}"
                 break
@@ -241,8 +243,9 @@ def check_valid(sym: Symbol, s: str) -> Tuple[bool, Optional[str]]:
 
     for low_sym, high_sym, cond in sym.ranges:
         if expr_value(cond):
-            low_s = low_sym.str_value
-            high_s = high_sym.str_value
+            # A bound given by an option without a value (e.g. disabled) counts as 0, as in Symbol.str_value
+            low_s = low_sym.str_value if _is_base_n(low_sym.str_value, base) else "0"
+            high_s = high_sym.str_value if _is_base_n(high_sym.str_value, base) else "0"
             if not int(low_s, base) <= int(s, base) <= int(high_s, base):
                 return False, f"{s} is outside the range {low_s} to {high_s}"
             break
